@@ -11,6 +11,8 @@ All theorems are about the functions `Drivers/C12.lean` runs (`Model/Stereo.lean
 Validated, not proved (see evidence): agreement with RDKit, inequality of mirror images, labels only on stereogenic centres.
 -/
 set_option linter.unusedSimpArgs false
+set_option linter.unusedTactic false
+set_option linter.unreachableTactic false
 namespace ChythonModel.Props.C12
 open ChythonModel.Gen ChythonModel.Spec ChythonModel.Model.Stereo ChythonModel.Proofs.C12
 
@@ -527,6 +529,177 @@ theorem allene_sign_sym (mark : Int) (u v w : V2) :
     alleneSign mark u v (2 * v.1 - w.1, 2 * v.2 - w.2) = -alleneSign mark u v w := by
   obtain ⟨ux, uy⟩ := u; obtain ⟨vx, vy⟩ := v; obtain ⟨wx, wy⟩ := w
   refine ⟨?_, ?_⟩ <;> simp only [alleneSign, alleneDot, ← sgn_neg] <;> congr 1 <;> ring
+
+/-! ## 6. wedge bonds: what `_wedge_map` draws, `add_wedge` reads back -/
+
+theorem sgn_of_pos {d : Int} (h : 0 < d) : sgn d = 1 := by unfold sgn; simp [h]
+theorem sgn_of_neg {d : Int} (h : d < 0) : sgn d = -1 := by
+  unfold sgn; have : ¬ d > 0 := by omega
+  simp [this, h]
+
+/-- the arithmetic core of the wedge round trip -/
+theorem wedge_core (D mark V : Int) (s : Bool) (hm : mark ≠ 0) (h : (if s = true then sgn D else -sgn D) = mark)
+    (hV : V = mark * D) : (if sgn V = 0 then none else some (decide (sgn V > 0))) = some s := by
+  have hD : D ≠ 0 := by
+    intro e; subst e; simp [sgn] at h; exact hm h.symm
+  rcases Int.lt_or_gt_of_ne hD with hd | hd
+  · rw [sgn_of_neg hd] at h
+    cases s
+    · simp at h; subst h; subst hV
+      have : sgn (1 * D) = -1 := by rw [Int.one_mul]; exact sgn_of_neg hd
+      rw [this]; decide
+    · simp at h; subst h; subst hV
+      have : sgn (-1 * D) = 1 := by apply sgn_of_pos; omega
+      rw [this]; decide
+  · rw [sgn_of_pos hd] at h
+    cases s
+    · simp at h; subst h; subst hV
+      have : sgn (-1 * D) = -1 := by apply sgn_of_neg; omega
+      rw [this]; decide
+    · simp at h; subst h; subst hV
+      have : sgn (1 * D) = 1 := by rw [Int.one_mul]; exact sgn_of_pos hd
+      rw [this]; decide
+
+/-- three heavy neighbours + implicit hydrogen: whichever neighbour `_wedge_map` picks for the wedge (any rotation of the
+neighbour tuple), the wedge it draws for label `s` is read back by `add_wedge` as `s` — for all integer coordinates for
+which the drawing is not degenerate (`mark ≠ 0`) -/
+theorem wedge_roundtrip3 (a b c : Nat) (hnd : [a, b, c].Nodup) (pa pb pc pn : V2) (eh : Option V2) (isH : Nat → Bool)
+    (s : Bool) :
+    ∀ r ∈ [[a, b, c], [b, c, a], [c, a, b]], ∀ mark,
+      wedgeSign [(a, pa), (b, pb), (c, pc)] pn eh r isH (some s) = .ok mark → mark ≠ 0 →
+      addWedgeHeavy [(a, pa), (b, pb), (c, pc)] pn eh (r.headD 0) mark = .ok (some s) := by
+  have hnd' := hnd
+  simp only [List.nodup_cons, List.mem_cons, List.not_mem_nil, not_or, or_false, List.nodup_nil, and_true,
+    not_false_eq_true] at hnd
+  obtain ⟨⟨hab, hac⟩, hbc⟩ := hnd
+  have hba := Ne.symm hab; have hca := Ne.symm hac; have hcb := Ne.symm hbc
+  have e1 : (a == b) = false := by simpa using hab
+  have e2 : (a == c) = false := by simpa using hac
+  have e3 : (b == c) = false := by simpa using hbc
+  have e4 : (b == a) = false := by simpa using hba
+  have e5 : (c == a) = false := by simpa using hca
+  have e6 : (c == b) = false := by simpa using hcb
+  obtain ⟨ax, ay⟩ := pa; obtain ⟨bx, byy⟩ := pb; obtain ⟨cx, cy⟩ := pc; obtain ⟨nx, ny⟩ := pn
+  intro r hr mark hw hm
+  simp only [List.mem_cons, List.not_mem_nil, or_false] at hr
+  rcases eh with _ | ⟨hx, hy⟩ <;> rcases hr with rfl | rfl | rfl
+  · have ht : translateTetra [a, b, c] [a, b, c] isH (some s) none = .ok s := by
+      simp [translateTetra, pickSign, tetraOrder, tetraLookup, index?, getKey, bind, Except.bind, pure, Except.pure,
+        hab, hac, hbc, hba, hca, hcb]
+      cases s <;> decide
+    simp only [wedgeSign, List.map, ht, bind, Except.bind, pure, Except.pure, List.lookup, e1, e2, e3, e4, e5, e6,
+      beq_self_eq_true, Except.ok.injEq] at hw
+    simp only [addWedgeHeavy, List.map, List.headD, hab, hac, hba, hca, hbc, hcb, if_true, if_false, Except.ok.injEq]
+    exact wedge_core _ mark _ s hm hw (by simp only [pyramidVol, lift]; ring)
+  · have ht : translateTetra [a, b, c] [b, c, a] isH (some s) none = .ok s := by
+      simp [translateTetra, pickSign, tetraOrder, tetraLookup, index?, getKey, bind, Except.bind, pure, Except.pure,
+        hab, hac, hbc, hba, hca, hcb]
+      cases s <;> decide
+    simp only [wedgeSign, List.map, ht, bind, Except.bind, pure, Except.pure, List.lookup, e1, e2, e3, e4, e5, e6,
+      beq_self_eq_true, Except.ok.injEq] at hw
+    simp only [addWedgeHeavy, List.map, List.headD, hab, hac, hba, hca, hbc, hcb, if_true, if_false, Except.ok.injEq]
+    exact wedge_core _ mark _ s hm hw (by simp only [pyramidVol, lift]; ring)
+  · have ht : translateTetra [a, b, c] [c, a, b] isH (some s) none = .ok s := by
+      simp [translateTetra, pickSign, tetraOrder, tetraLookup, index?, getKey, bind, Except.bind, pure, Except.pure,
+        hab, hac, hbc, hba, hca, hcb]
+      cases s <;> decide
+    simp only [wedgeSign, List.map, ht, bind, Except.bind, pure, Except.pure, List.lookup, e1, e2, e3, e4, e5, e6,
+      beq_self_eq_true, Except.ok.injEq] at hw
+    simp only [addWedgeHeavy, List.map, List.headD, hab, hac, hba, hca, hbc, hcb, if_true, if_false, Except.ok.injEq]
+    exact wedge_core _ mark _ s hm hw (by simp only [pyramidVol, lift]; ring)
+  · have ht : translateTetra [a, b, c] [a, b, c] isH (some s) none = .ok s := by
+      simp [translateTetra, pickSign, tetraOrder, tetraLookup, index?, getKey, bind, Except.bind, pure, Except.pure,
+        hab, hac, hbc, hba, hca, hcb]
+      cases s <;> decide
+    simp only [wedgeSign, List.map, ht, bind, Except.bind, pure, Except.pure, List.lookup, e1, e2, e3, e4, e5, e6,
+      beq_self_eq_true, Except.ok.injEq] at hw
+    simp only [addWedgeHeavy, List.map, List.headD, hab, hac, hba, hca, hbc, hcb, if_true, if_false, Except.ok.injEq]
+    exact wedge_core _ mark _ s hm hw (by simp only [pyramidVol, lift]; ring)
+  · have ht : translateTetra [a, b, c] [b, c, a] isH (some s) none = .ok s := by
+      simp [translateTetra, pickSign, tetraOrder, tetraLookup, index?, getKey, bind, Except.bind, pure, Except.pure,
+        hab, hac, hbc, hba, hca, hcb]
+      cases s <;> decide
+    simp only [wedgeSign, List.map, ht, bind, Except.bind, pure, Except.pure, List.lookup, e1, e2, e3, e4, e5, e6,
+      beq_self_eq_true, Except.ok.injEq] at hw
+    simp only [addWedgeHeavy, List.map, List.headD, hab, hac, hba, hca, hbc, hcb, if_true, if_false, Except.ok.injEq]
+    exact wedge_core _ mark _ s hm hw (by simp only [pyramidVol, lift]; ring)
+  · have ht : translateTetra [a, b, c] [c, a, b] isH (some s) none = .ok s := by
+      simp [translateTetra, pickSign, tetraOrder, tetraLookup, index?, getKey, bind, Except.bind, pure, Except.pure,
+        hab, hac, hbc, hba, hca, hcb]
+      cases s <;> decide
+    simp only [wedgeSign, List.map, ht, bind, Except.bind, pure, Except.pure, List.lookup, e1, e2, e3, e4, e5, e6,
+      beq_self_eq_true, Except.ok.injEq] at hw
+    simp only [addWedgeHeavy, List.map, List.headD, hab, hac, hba, hca, hbc, hcb, if_true, if_false, Except.ok.injEq]
+    exact wedge_core _ mark _ s hm hw (by simp only [pyramidVol, lift]; ring)
+
+theorem wedge_core_odd (D mark V : Int) (s : Bool) (hm : mark ≠ 0)
+    (h : (if (!s) = true then sgn D else -sgn D) = mark) (hV : V = mark * (-D)) :
+    (if sgn V = 0 then none else some (decide (sgn V > 0))) = some s := by
+  apply wedge_core (-D) mark V s hm _ hV
+  rw [sgn_neg]
+  cases s <;> simpa using h
+
+/-- four heavy neighbours: the same round trip for each of the four rotations `_wedge_map` may choose -/
+theorem wedge_roundtrip4 (a b c d : Nat) (hnd : [a, b, c, d].Nodup) (pa pb pc pd pn : V2) (isH : Nat → Bool) (s : Bool) :
+    ∀ r ∈ [[a, b, c, d], [b, c, d, a], [c, d, a, b], [d, a, b, c]], ∀ mark,
+      wedgeSign [(a, pa), (b, pb), (c, pc), (d, pd)] pn none r isH (some s) = .ok mark → mark ≠ 0 →
+      addWedgeHeavy [(a, pa), (b, pb), (c, pc), (d, pd)] pn none (r.headD 0) mark = .ok (some s) := by
+  have D := distinct4_of_nodup hnd
+  have e1 : (a == b) = false := by simpa using D.ab
+  have e2 : (a == c) = false := by simpa using D.ac
+  have e3 : (a == d) = false := by simpa using D.ad
+  have e4 : (b == c) = false := by simpa using D.bc
+  have e5 : (b == d) = false := by simpa using D.bd
+  have e6 : (c == d) = false := by simpa using D.cd
+  have e7 : (b == a) = false := by simpa using D.ba
+  have e8 : (c == a) = false := by simpa using D.ca
+  have e9 : (d == a) = false := by simpa using D.da
+  have e10 : (c == b) = false := by simpa using D.cb
+  have e11 : (d == b) = false := by simpa using D.db
+  have e12 : (d == c) = false := by simpa using D.dc
+  obtain ⟨ax, ay⟩ := pa; obtain ⟨bx, byy⟩ := pb; obtain ⟨cx, cy⟩ := pc; obtain ⟨dx, dy⟩ := pd; obtain ⟨nx, ny⟩ := pn
+  intro r hr mark hw hm
+  simp only [List.mem_cons, List.not_mem_nil, or_false] at hr
+  rcases hr with rfl | rfl | rfl | rfl
+  · have ht : translateTetra [a, b, c, d] [a, b, c, d] isH (some s) none = .ok s := by
+      simp [translateTetra, pickSign, tetraOrder, tetraLookup, index?, getKey, bind, Except.bind, pure, Except.pure,
+        D.ab, D.ac, D.ad, D.bc, D.bd, D.cd, D.ba, D.ca, D.da, D.cb, D.db, D.dc]
+      cases s <;> decide
+    simp only [wedgeSign, List.map, ht, bind, Except.bind, pure, Except.pure, List.lookup, e1, e2, e3, e4, e5, e6, e7, e8, e9,
+      e10, e11, e12, beq_self_eq_true, Except.ok.injEq] at hw
+    simp only [addWedgeHeavy, List.map, List.headD, D.ab, D.ac, D.ad, D.bc, D.bd, D.cd, D.ba, D.ca, D.da, D.cb, D.db, D.dc,
+      if_true, if_false, Except.ok.injEq]
+    exact wedge_core _ mark _ s hm hw (by simp only [pyramidVol, lift]; ring)
+  · have ht : translateTetra [a, b, c, d] [b, c, d, a] isH (some s) none = .ok (!s) := by
+      simp [translateTetra, pickSign, tetraOrder, tetraLookup, index?, getKey, bind, Except.bind, pure, Except.pure,
+        D.ab, D.ac, D.ad, D.bc, D.bd, D.cd, D.ba, D.ca, D.da, D.cb, D.db, D.dc]
+      cases s <;> decide
+    simp only [wedgeSign, List.map, ht, bind, Except.bind, pure, Except.pure, List.lookup, e1, e2, e3, e4, e5, e6, e7, e8, e9,
+      e10, e11, e12, beq_self_eq_true, Except.ok.injEq] at hw
+    simp only [addWedgeHeavy, List.map, List.headD, D.ab, D.ac, D.ad, D.bc, D.bd, D.cd, D.ba, D.ca, D.da, D.cb, D.db, D.dc,
+      if_true, if_false, Except.ok.injEq]
+    exact wedge_core_odd _ mark _ s hm hw (by simp only [pyramidVol, lift]; ring)
+  · have ht : translateTetra [a, b, c, d] [c, d, a, b] isH (some s) none = .ok s := by
+      simp [translateTetra, pickSign, tetraOrder, tetraLookup, index?, getKey, bind, Except.bind, pure, Except.pure,
+        D.ab, D.ac, D.ad, D.bc, D.bd, D.cd, D.ba, D.ca, D.da, D.cb, D.db, D.dc]
+      cases s <;> decide
+    simp only [wedgeSign, List.map, ht, bind, Except.bind, pure, Except.pure, List.lookup, e1, e2, e3, e4, e5, e6, e7, e8, e9,
+      e10, e11, e12, beq_self_eq_true, Except.ok.injEq] at hw
+    simp only [addWedgeHeavy, List.map, List.headD, D.ab, D.ac, D.ad, D.bc, D.bd, D.cd, D.ba, D.ca, D.da, D.cb, D.db, D.dc,
+      if_true, if_false, Except.ok.injEq]
+    exact wedge_core _ mark _ s hm hw (by simp only [pyramidVol, lift]; ring)
+  · have ht : translateTetra [a, b, c, d] [d, a, b, c] isH (some s) none = .ok (!s) := by
+      simp [translateTetra, pickSign, tetraOrder, tetraLookup, index?, getKey, bind, Except.bind, pure, Except.pure,
+        D.ab, D.ac, D.ad, D.bc, D.bd, D.cd, D.ba, D.ca, D.da, D.cb, D.db, D.dc]
+      cases s <;> decide
+    simp only [wedgeSign, List.map, ht, bind, Except.bind, pure, Except.pure, List.lookup, e1, e2, e3, e4, e5, e6, e7, e8, e9,
+      e10, e11, e12, beq_self_eq_true, Except.ok.injEq] at hw
+    simp only [addWedgeHeavy, List.map, List.headD, D.ab, D.ac, D.ad, D.bc, D.bd, D.cd, D.ba, D.ca, D.da, D.cb, D.db, D.dc,
+      if_true, if_false, Except.ok.injEq]
+    exact wedge_core_odd _ mark _ s hm hw (by simp only [pyramidVol, lift]; ring)
+
+
+/-! ## 7. table vs geometry -/
 
 /-- the point with index `i` among four -/
 def sel4 (p0 p1 p2 p3 : V3) : Nat → V3
